@@ -97,7 +97,6 @@ theorem regInv_estep {s s' : St} (h : RegInv s) (st : EStep s s') : RegInv s' :=
   cases st with
   | incReg => exact regInv_incReg h
   | emit i hw _ _ _ => exact regInv_push_none h i hw
-  | branch i hw _ _ _ _ => exact regInv_push_none h i hw
   | incEmit i hw _ _ _ => exact regInv_incEmit h i hw
   | addErr k v l o => exact ⟨h.sync, h.sorted, h.bound⟩
   | declare n v i _ hw _ _ _ =>
